@@ -237,7 +237,7 @@ struct InflateSession {
                 // ---- transport damage
                 const Json &dm = plan.at("damage");
                 for (auto &d : dm.a) {
-                        int kind = (int) ((uint64_t) d.ai(0) % 6);
+                        int kind = (int) ((uint64_t) d.ai(0) % 7);
                         if (kind == 0 || bytes.empty())
                                 continue;
                         int region = (int) ((uint64_t) d.ai(1) % 6);
@@ -287,6 +287,33 @@ struct InflateSession {
                                 COUNT("xport.garbage");
                                 pristine = false;
                                 hdr_len = 0;
+                                break;
+                        }
+                        case 6: { // a zlib trailer in which one 16-bit half of the Adler-32 is the right residue in a form no Adler-32 can take
+                                  // (value + 65521): possible only for halves below 15
+                                if (fmt != FMT_ZLIB || trl_len != 4 || mode == ISAL_DEFLATE)
+                                        break;
+                                bool done = false;
+                                for (int half = 0; half < 2; half++) {
+                                        if (!((val >> half) & 1))
+                                                continue;
+                                        size_t at = body_end + (half ? 0 : 2); // big endian: B first, then A
+                                        uint32_t v = (uint32_t) bytes[at] << 8 | bytes[at + 1];
+                                        if (v > 14)
+                                                continue;
+                                        v += 65521;
+                                        bytes[at] = (uint8_t) (v >> 8);
+                                        bytes[at + 1] = (uint8_t) v;
+                                        done = true;
+                                }
+                                if (done) {
+                                        pristine = false;
+                                        COUNT("xport.adler_noncanonical");
+                                        if (single && (mode == ISAL_ZLIB || mode == ISAL_ZLIB_NO_HDR_VER)) {
+                                                expect_class = ISAL_INCORRECT_CHECKSUM;
+                                                fault_end_byte = len;
+                                        }
+                                }
                                 break;
                         }
                         case 5: { // named wrapper faults
@@ -892,6 +919,8 @@ struct InflateSession {
                         COUNT("run.inflate_finished");
                         if (rs == REF_ERR_TRAILER && verifying) {
                                 rr.fail("C11.false_success", strf("decoder reports success in verifying mode %d but the stored trailer (%08x/%u) does not match the %zu delivered bytes", mode, ref.trailer_crc, ref.trailer_isize, delivered.size()));
+                                if (expect_class == ISAL_INCORRECT_CHECKSUM && fed == bytes.size())
+                                        rr.alt = "C06"; // a single trailer fault: C06 names the class that has to come back
                                 return;
                         }
                         if (rs != REF_DONE && rs != REF_ERR_OUTLIMIT) {
@@ -920,6 +949,8 @@ struct InflateSession {
                 if (os1.ran && os1.ret == 0 && os1.block_state == ISAL_BLOCK_FINISH) {
                         if (rs == REF_ERR_TRAILER && verifying) {
                                 rr.fail("C11.false_success", strf("one-shot decoder reports success in verifying mode %d but the stored trailer does not match the %zu delivered bytes", mode, os1.out.size()));
+                                if (expect_class == ISAL_INCORRECT_CHECKSUM)
+                                        rr.alt = "C06";
                                 return;
                         }
                         if (rs != REF_DONE && rs != REF_ERR_OUTLIMIT && rs != REF_ERR_TRAILER) {
@@ -959,6 +990,16 @@ struct InflateSession {
                                 return;
                         }
                         COUNT("probe.stream_equals_oneshot");
+                }
+                // A stream that is valid by construction, supplied completely, which the reference decodes - and which both the one-shot and
+                // the streaming decoder refuse with the same status: consistent, and wrong.  For a stream out of the library's own
+                // compressor this is C07's round trip; where the status is "incorrect checksum" in a verifying mode the checksum the decoder
+                // computed over bytes it delivered correctly is not the reference checksum (C11).
+                if (pristine && !finished && final_ret < 0 && rs == REF_DONE && fed == bytes.size() && delivered.size() == ref.out.size() && !memcmp(delivered.data(), ref.out.data(), delivered.size())) {
+                        bool vfy = verifying && final_ret == ISAL_INCORRECT_CHECKSUM;
+                        rr.fail(vfy ? "C11.valid_checksum_rejected" : "C07.valid_stream_rejected", strf("valid stream (%zu bytes, fmt %d mode %d, reference decodes %zu bytes, all delivered correctly): decoder ended with status %d; state.crc %08x", bytes.size(), fmt, mode, ref.out.size(), final_ret, st->crc));
+                        rr.alt = vfy ? "C07" : "";
+                        return;
                 }
                 if (pristine && dict.size() && finished)
                         COUNT("probe.dict_roundtrip");
@@ -1099,6 +1140,14 @@ static Json gen_inflate(Rng &r0, const std::string &focus, int tier)
         uint64_t maxlen = r.chance(1, focus == "C06" ? 6 : 12) ? 150000 : r.chance(1, 3) ? 40000 : 4000;
         Json sdata = gen_data_spec(r, maxlen, 0);
         maybe_adler_worst_case(r, focus, sdata);
+        bool afin = fmt == 2 && r.chance(1, focus == "C06" || focus == "C11" ? 8 : 30); // Adler-32 halves at 0 / 65520 / below 15
+        if (afin) {
+                sdata.set("afin", (int) (1 + r.below(15)));
+                if ((uint64_t) sdata.geti("n") < 1400)
+                        sdata.set("n", (uint64_t) (1400 + r.below(4000)));
+                if (kind == 2)
+                        kind = (int) r.below(2); // the grammar generator has no data to tune
+        }
         src.set("kind", kind).set("data", sdata).set("level", (int) r.below(4));
         static const int hbs[] = { 0, 0, 0, 9, 12, 15 };
         src.set("hb", r.pick(hbs));
@@ -1143,6 +1192,12 @@ static Json gen_inflate(Rng &r0, const std::string &focus, int tier)
                         d.push(dk).push(region).push(rx.chance(1, 2) ? (uint64_t) rx.below(40) : rx.u64() >> 40).push((int) rx.below(256));
                         dm.push(d);
                 }
+        }
+        if (afin && kind != 2 && r.chance(1, 2)) {
+                dm = Json::arr();
+                Json d = Json::arr();
+                d.push(6).push(0).push(0).push((int) (1 + r.below(3)));
+                dm.push(d);
         }
         p.set("damage", dm);
         // ---- call history
